@@ -33,7 +33,7 @@ BUDGET_S = {'quick': 240, 'thorough': 900}
 
 def bounds(tier):
     f = family()
-    return {'patterns': len(f['pats']), 'targets': len(f['targets']), 'seeds': len(f['seeds']), 'pattern_lists': 200 if tier == 'quick' else 5000}
+    return {'patterns': len(f['pats']), 'targets': len(f['targets']), 'seeds': len(f['seeds']), 'pattern_lists': 200 if tier == 'quick' else 40000}
 
 
 def setup(tier, seed):
@@ -334,7 +334,7 @@ def run_lists(u, out):
 def units(tier, seed):
     F = family()
     us = [('pairs', tier, seed, pi) for pi in range(len(F['pats']))]
-    n = 200 if tier == 'quick' else 5000
+    n = 200 if tier == 'quick' else 40000
     for lo in range(0, n, 50):
         us.append(('lists', tier, seed, lo, 50))
     random.Random(seed).shuffle(us)
